@@ -1,5 +1,6 @@
 import Capella.Model.Index
 import Capella.Model.AccTable
+import Capella.Model.Pods
 /-
 Executable model of the MUTATION methods of the object layer (`capellambse/model/_descriptors.py`,
 `capellambse/model/_obj.py`) over a real tree state.
@@ -611,13 +612,22 @@ inductive Slot
   | notDescriptor                            -- neither Accessor nor POD: TypeError
   | stringPod (attr : String) (writable : Bool)
   | role (row : ARow)                        -- single-valued RoleTagAccessor, value is a NewObject
+  | pod (d : Capella.Pods.Desc) (repair : List (List Char × Option (List Char)))   -- any POD kind of `Capella.Pods`; see `podParams`
   | other (why : String)
+deriving Repr
+
+/-- a value assigned to a POD attribute, as far as the object layer's histories assign them -/
+inductive PodLit
+  | none | bool (b : Bool) | int (i : Int) | str (s : String)
+  | member (cls name value : String)       -- a member of an `enum.Enum` class
+  | other                                  -- any other object
 deriving Repr
 
 mutual
   inductive KwVal
     | str (s : String)
     | newObj (spec : NewSpec)
+    | lit (v : PodLit)
   deriving Repr
   inductive NewSpec
     | mk (hint : String) (kw : List (String × Slot × KwVal))
@@ -649,12 +659,17 @@ def matchXtypeGeneric (t : Tables) (hint : String) : M (CRow × String) := do
   | [m] => pure m
   | _ => hit "xtype.ambiguous"; raise .valueError
 
+/-- `return cls, _xtype.build_xtype(cls)`: the type string is computed from the class's module and name (generated column
+`CRow.built`), whether or not the class is registered; a module below no xtype anchor raises TypeError -/
+def buildXtype (c : CRow) : M (CRow × String) :=
+  match c.built with
+  | some x => do (if c.xtype != some x then hit "xtype.built-differs-from-registered" else pure ()); pure (c, x)
+  | none => do hit "xtype.no-anchor"; raise .typeError
+
 def matchXtype (t : Tables) (row : ARow) (hint : String) : M (CRow × String) := do
   if row.kind == .roleTagAccessor && !row.classes.isEmpty then
     match (row.classes.filterMap t.cls).find? (·.short == hint) with
-    | some c => match c.xtype with
-      | some x => pure (c, x)
-      | none => raise (.unmodelled "build_xtype of an unregistered class")
+    | some c => buildXtype c
     | none => hit "xtype.role-invalid"; raise .valueError
   else matchXtypeGeneric t hint
 
@@ -662,9 +677,7 @@ def guessXtype (t : Tables) (row : ARow) : M (CRow × String) := do
   if row.kind == .roleTagAccessor then
     match row.classes with
     | [c] => match t.cls c with
-      | some cr => match cr.xtype with
-        | some x => pure (cr, x)
-        | none => raise (.unmodelled "build_xtype of an unregistered class")
+      | some cr => buildXtype cr
       | none => raise (.unmodelled "class not in table")
     | _ => hit "xtype.role-needs-hint"; raise .valueError
   else
@@ -700,6 +713,41 @@ def setStringPod (n : Nat) (attr : String) (writable : Bool) (v : String) : M Un
   if !writable && (← attrOf n attr).isSome then raise .typeError
   if v != "" then setAttr n attr v else popAttr n attr
 
+/-- the runtime parameters of `Capella.Pods` as far as the object layer needs them: `helpers.repair_html` (libxml2) is an
+INPUT of the call – the harness runs the repair on the assigned value and sends (value, result | raised); floats and
+datetimes are not assigned through this model (`setPod` declines those kinds) -/
+def podParams (repair : List (List Char × Option (List Char))) : Capella.Pods.Params :=
+  { F := Unit, fZero := (), fRepr := fun _ => [], fParse := fun _ => none, fOfInt := fun _ => none, fIsZero := fun _ => true,
+    N := Unit, T := Unit, localize := fun _ => none, iso := fun _ => [], fromIso := fun _ => none, truncMs := id,
+    isoOk := fun _ => true, repair := fun s => (repair.find? (fun p => p.1 == s)).bind (·.2), xhtml := false,
+    escLinked := some, unescLinked := id }
+
+def PodLit.toPy (P : Capella.Pods.Params) : PodLit → Capella.Pods.PyVal P
+  | .none => .none | .bool b => .bool b | .int i => .int i | .str s => .str s.toList
+  | .member c n v => .member c.toList n.toList v.toList | .other => .other
+
+def podErr : Capella.Pods.Err → Err
+  | .typeError => .typeError | .valueError => .valueError | .keyError => .keyError | .assertionError => .assertion
+  | .attributeError => .attributeError | .overflowError => .unmodelled "OverflowError of a POD"
+  | .unsupported => .unmodelled "POD kind"
+
+/-- `BasePOD.__set__(obj, value)` for the POD kinds String, HTMLString, Bool, Int, Enum – the decisions (`value != default`,
+`_to_xml`, lxml's refusal of XML-illegal text) are those of `Capella.Pods` (the model of C07); the write goes through
+`setAttr` / `popAttr` so that the element is recorded as touched and an index-relevant attribute is not changed silently -/
+def setPod (P : Capella.Pods.Params) (n : Nat) (d : Capella.Pods.Desc) (v : Capella.Pods.PyVal P) : M Unit := do
+  match d.kind with
+  | .float | .datetime | .selector | .other _ => raise (.unmodelled "POD kind")
+  | _ => pure ()
+  let attr := String.ofList d.attr
+  if !d.writable && (← attrOf n attr).isSome then hit "pod.not-writable"; raise .typeError
+  if !Capella.Pods.isNone v && Capella.Pods.neDefault P d v then
+    match Capella.Pods.toXml P d v with
+    | .error e => hit "pod.to-xml-raises"; raise (podErr e)
+    | .ok data =>
+      if Capella.Pods.xmlOk data then do hit "pod.store"; setAttr n attr (String.ofList data)
+      else do hit "pod.xml-illegal"; raise .valueError
+  else do hit "pod.elide"; popAttr n attr
+
 mutual
   /-- `ModelElement.__init__(model, parent, xmltag, uuid=…, **kw)`; returns the identity of the element -/
   def modelElementInit (fuel : Nat) (t : Tables) (cls : CRow) (parent : Nat) (xmltag : Option String) (uuid : String)
@@ -722,6 +770,7 @@ mutual
             | .missing, _ => hit "init.no-such-attribute"; raise .attributeError
             | .notDescriptor, _ => hit "init.not-a-descriptor"; raise .typeError
             | .stringPod a w, .str v => hit "init.pod"; setStringPod nid a w v
+            | .pod d rp, .lit v => hit "init.pod-kind"; setPod (podParams rp) nid d (v.toPy _)
             | .role row, .newObj spec => hit "init.nested"; roleTagSet fuel t row nid spec
             | _, _ => raise (.unmodelled "keyword of __init__"))
         indexElem nid)                              -- loader.idcache_index(self._element)
@@ -755,6 +804,7 @@ mutual
         hit "role.same-class"
         forM_ spec.kw (fun (_, slot, val) => match slot, val with
           | .stringPod a w, .str v => setStringPod e.nid a w v
+          | .pod d rp, .lit v => setPod (podParams rp) e.nid d (v.toPy _)
           | .missing, _ => raise .attributeError
           | _, _ => raise (.unmodelled "setattr on an existing role element"))
         return
@@ -1200,21 +1250,152 @@ def attrDelete (row : ARow) (owner : Nat) (elems : List Nat) (obj : Nat) : M Uni
   hit "attr.delete"
   setLinks row owner ((elems.filter (· != obj)).map Val.elem)
 
-/-- `acc.delete(elmlist, obj)` -/
-def accDelete (t : Tables) (row : ARow) (owner : Nat) (elems : List Nat) (obj : Nat) : M Unit :=
+/-- `isinstance(value, cls)` for an element of this model: the class registered for its `xsi:type` (else `ModelElement`)
+has `cls` in its MRO -/
+def isInstanceOf (t : Tables) (n : Nat) (cls : String) : M Bool := do
+  let r ← getRow n
+  match classOf t r with
+  | some c => pure (c.mro.contains cls)
+  | none => raise (.unmodelled "class table has no ModelElement")
+
+/-- `acc = getattr(self.class_, self.attr)` of a `TypecastAccessor` (the relation it delegates to, resolved on the class it
+casts to) -/
+def typecastTarget (t : Tables) (row : ARow) : M ARow := do
+  match row.elemClass.bind t.cls, row.follow with
+  | some c, some a =>
+    match t.descriptor c a with
+    | some inner => pure inner
+    | none => hit "typecast.attribute-error"; raise .attributeError
+  | _, _ => raise (.protocol "typecast")
+
+/-- the relation `getattr(obj, self.attr)` / `setattr(obj, self.attr, …)` / `delattr(obj, self.attr)` of a
+`TypecastAccessor` reaches: the descriptor of that name on `type(obj)` -/
+def typecastOnOwner (t : Tables) (row : ARow) (owner : Nat) : M ARow := do
+  let r ← getRow owner
+  match classOf t r, row.follow with
+  | some c, some a =>
+    match t.descriptor c a with
+    | some inner => pure inner
+    | none => hit "typecast.owner-attribute-error"; raise .attributeError
+  | _, _ => raise (.protocol "typecast")
+
+/-- `type(lst)._accessor` of the list `acc.__get__(obj)` hands out.  `TypecastAccessor.__get__` is `getattr(obj, self.attr)`:
+the list in the caller's hand is the one the OTHER relation built, coupled to that relation – every method of the list
+(`insert`, `__delitem__`, `__setitem__`, `create`) goes to it, with its `fixed_length`; no class is checked. -/
+def coupledRow (t : Tables) (row : ARow) (owner : Nat) : M ARow := do
   match row.kind with
-  | .directProxyAccessor | .attributeMatcherAccessor | .roleTagAccessor => deleteElems t row [obj]
+  | .typecastAccessor =>
+    let inner ← typecastOnOwner t row owner
+    if inner.kind == .typecastAccessor then raise (.unmodelled "TypecastAccessor over a TypecastAccessor")
+    hit "typecast.coupled-list"
+    pure inner
+  | _ => pure row
+
+/-- `RequirementsRelationAccessor._find_relations(obj)` as far as the mutation methods use it (as a SET: they remove every
+member, or look one up by identity): the relation elements of the three relation types, anywhere in the model, whose
+`source` or `target` attribute resolves to `obj`.  `model.search` reads the type index; a broken link in any relation
+element makes the attribute read – and with it the whole method – raise. -/
+def REL_INCOMING : String := "CapellaRequirements:CapellaIncomingRelation"
+def REL_INTERNAL : String := "Requirements:InternalRelation"
+def REL_OUTGOING : String := "CapellaRequirements:CapellaOutgoingRelation"
+
+def findRelations (obj : Nat) : M (List Nat) := do
+  let s ← getS
+  let mut out : List Nat := []
+  for f in s.frags do
+    for r in f.rows do
+      if r.xt == some REL_INCOMING || r.xt == some REL_INTERNAL || r.xt == some REL_OUTGOING then
+        -- `i.source`, `i.target`: `AttrProxyAccessor.__get__` of the attributes `source` / `target` (swapped for the outgoing
+        -- relation, which does not matter for `obj in (i.source, i.target)`)
+        let a ← followLinks ((aget r.attrs "source").getD "") false
+        let b ← followLinks ((aget r.attrs "target").getD "") false
+        if a.length > 1 || b.length > 1 then raise .runtimeError      -- no_list: "Expected 1 object"
+        if a.contains obj || b.contains obj then out := out ++ [r.nid]
+  pure out
+
+/-- `acc.delete(elmlist, obj)` for the kinds that do not delegate -/
+def accDeleteBase (t : Tables) (row : ARow) (owner : Nat) (elems : List Nat) (obj : Nat) : M Unit := do
+  match row.kind with
+  | .directProxyAccessor | .attributeMatcherAccessor | .roleTagAccessor | .attributeAccessor => deleteElems t row [obj]
   | .linkAccessor => linkDelete row owner obj
   | .attrProxyAccessor | .physicalLinkEndsAccessor => attrDelete row owner elems obj
+  | .elementRelationAccessor => hit "delete.not-deletable"; raise .notImplemented     -- `WritableAccessor.delete`
+  | .requirementsRelationAccessor =>
+    -- for relation in self._find_relations(elmlist._parent): if relation == obj._element: idcache_remove; remove; break
+    if (← findRelations owner).contains obj then
+      match (← parentOf obj) with
+      | some _ => hit "reqrel.delete"; removeElem obj
+      | none => raise .attributeError                 -- `obj.parent` is None
+    else do hit "reqrel.delete-not-found"; raise .valueError
   | _ => raise (.unmodelled "delete of this accessor kind")
 
-/-- `acc.insert(elmlist, index, value)` -/
-def accInsert (row : ARow) (owner : Nat) (elems : List Nat) (index : Int) (value : Val) : M Unit :=
+/-- `acc.delete(elmlist, obj)`; `TypecastAccessor.delete` forwards to `getattr(self.class_, self.attr)` -/
+def accDelete (t : Tables) (row : ARow) (owner : Nat) (elems : List Nat) (obj : Nat) : M Unit := do
   match row.kind with
-  | .directProxyAccessor | .attributeMatcherAccessor | .roleTagAccessor => containInsert owner elems index value
+  | .typecastAccessor =>
+    let inner ← typecastTarget t row
+    hit "typecast.delete"
+    accDeleteBase t inner owner elems obj
+  | _ => accDeleteBase t row owner elems obj
+
+/-- `RequirementsRelationAccessor.insert` -/
+def reqRelInsert (t : Tables) (owner : Nat) (index : Int) (value : Val) : M Unit := do
+  match value with
+  | .newObject _ => raise .notImplemented
+  | .foreign => raise (.unmodelled "relation object of another model")
+  | .str _ => raise .assertion
+  | .elem v =>
+    let r ← getRow v
+    let parent ← (do
+      if (← isInstanceOf t v "capellambse.extensions.reqif._capellareq.CapellaOutgoingRelation") then
+        -- parent = value.target._element   (`target` of an outgoing relation is stored in the attribute `source`)
+        match (← followLinks ((aget r.attrs "source").getD "") false) with
+        | [p] => pure p
+        | [] => raise .attributeError
+        | _ => raise .runtimeError
+      else
+        if !((← isInstanceOf t v "capellambse.extensions.reqif._capellareq.CapellaIncomingRelation") ||
+             (← isInstanceOf t v "capellambse.extensions.reqif._requirements.InternalRelation")) then
+          hit "reqrel.insert-not-a-relation"; raise .assertion
+        -- assert elmlist._parent == value.source
+        match (← followLinks ((aget r.attrs "source").getD "") false) with
+        | [] => raise .assertion
+        | [p] => if p == owner then pure owner else do hit "reqrel.insert-other-source"; raise .assertion
+        | _ => raise .runtimeError)
+    -- with suppress(ValueError): idcache_remove(value); parent.insert(index, value._element); idcache_index(value)
+    -- (no `_check_movable` here: a relation moved below itself is left to lxml after the un-indexing - not predicted)
+    if (subtreeRows (← getS) v).any (·.nid == parent) then raise (.unmodelled "relation moved below itself")
+    let n : Int := (← kidsOf parent).length
+    let idx := if index < 0 then max (index + n) 0 else min index n
+    hit "reqrel.insert"
+    moveElem parent idx.toNat v
+
+/-- `acc.insert(elmlist, index, value)` for the kinds that do not delegate -/
+def accInsertBase (t : Tables) (row : ARow) (owner : Nat) (elems : List Nat) (index : Int) (value : Val) : M Unit :=
+  match row.kind with
+  | .directProxyAccessor | .attributeMatcherAccessor | .roleTagAccessor | .attributeAccessor => containInsert owner elems index value
   | .linkAccessor => linkInsertM row owner elems index value
   | .attrProxyAccessor | .physicalLinkEndsAccessor => attrInsertM row owner elems index value
+  | .elementRelationAccessor => do hit "insert.not-insertable"; raise .notImplemented    -- `WritableAccessor.insert`
+  | .requirementsRelationAccessor => reqRelInsert t owner index value
   | _ => raise (.unmodelled "insert of this accessor kind")
+
+/-- `acc.insert(elmlist, index, value)`; `TypecastAccessor.insert` checks the class and forwards to
+`getattr(self.class_, self.attr)` -/
+def accInsert (t : Tables) (row : ARow) (owner : Nat) (elems : List Nat) (index : Int) (value : Val) : M Unit := do
+  match row.kind with
+  | .typecastAccessor =>
+    match value with
+    | .newObject _ => hit "typecast.insert-newobject"; raise .notImplemented
+    | .foreign => raise (.unmodelled "TypecastAccessor.insert of an object of another model")
+    | .str _ => raise .typeError
+    | .elem v =>
+      let cls ← match row.elemClass with | some c => pure c | none => raise (.protocol "typecast")
+      if !(← isInstanceOf t v cls) then hit "typecast.insert-wrong-class"; raise .typeError
+      let inner ← typecastTarget t row
+      hit "typecast.insert"
+      accInsertBase t inner owner elems index value
+  | _ => accInsertBase t row owner elems index value
 
 /-- `keep = {id(v._element) for v in new_values if not isinstance(v, str | NewObject)}`: the ELEMENTS among the assigned
 values (element identity – never the objects' own `==`, which some classes override to compare a name) -/
@@ -1239,7 +1420,11 @@ def directSet (t : Tables) (row : ARow) (owner : Nat) (values : List Val) : M Un
     | v :: vs => do
       let lst ← directGet row owner
       match v with
-      | .str _ => raise (.unmodelled "create_singleattr")
+      | .str _ =>
+        -- v = self.create_singleattr(list, v): without `single_attr` a TypeError – after the dropped members are gone
+        match row.singleAttr with
+        | none => hit "set.singleattr-none"; raise .typeError
+        | some _ => raise (.unmodelled "create_singleattr")
       | .elem n =>
         if lst[i]? == some n then hit "set.in-place"
         else do hit "set.insert"; containInsert owner lst (i : Int) v
@@ -1247,10 +1432,10 @@ def directSet (t : Tables) (row : ARow) (owner : Nat) (values : List Val) : M Un
       go (i + 1) vs
   go 0 values
 
-/-- `acc.__set__(obj, value)` with a list value -/
-def accSet (t : Tables) (row : ARow) (owner : Nat) (values : List Val) : M Unit :=
+/-- `acc.__set__(obj, value)` with a list value, for the kinds that do not delegate -/
+def accSetBase (t : Tables) (row : ARow) (owner : Nat) (values : List Val) : M Unit :=
   match row.kind with
-  | .directProxyAccessor | .attributeMatcherAccessor =>
+  | .directProxyAccessor | .attributeMatcherAccessor | .attributeAccessor =>
     if row.aslist then directSet t row owner values else raise .typeError
   | .roleTagAccessor => if row.aslist then raise .notImplemented else raise .typeError
   | .linkAccessor => linkSet row owner values true
@@ -1258,12 +1443,44 @@ def accSet (t : Tables) (row : ARow) (owner : Nat) (values : List Val) : M Unit 
     if !row.aslist then raise .typeError
     else if values.any (fun v => match v with | .newObject _ => true | _ => false) then raise .notImplemented
     else setLinks row owner values
+  | .elementRelationAccessor => do hit "set.not-settable"; raise .typeError           -- `WritableAccessor.__set__`
+  | .requirementsRelationAccessor => do
+    -- CapellaOutgoingRelation in [type(i) for i in value] → NotImplementedError; every relation of the object is un-indexed
+    -- and removed; `obj._element.extend(value)` – lxml accepts elements only, model objects make it raise TypeError
+    for v in values do
+      match v with
+      | .elem n =>
+        if (← getRow n).xt == some REL_OUTGOING then hit "reqrel.set-outgoing"; raise .notImplemented
+      | _ => pure ()
+    for r in (← findRelations owner) do
+      match (← parentOf r) with
+      | some _ => hit "reqrel.set-removes"; removeElem r
+      | none => raise .assertion
+    if !values.isEmpty then hit "reqrel.set-extend-raises"; raise .typeError
   | _ => raise (.unmodelled "__set__ of this accessor kind")
 
-/-- `acc.__delete__(obj)` -/
-def accDel (t : Tables) (row : ARow) (owner : Nat) : M Unit := do
+/-- `acc.__set__(obj, value)` with a list value; `TypecastAccessor.__set__` checks the values and does
+`setattr(obj, self.attr, value)` -/
+def accSet (t : Tables) (row : ARow) (owner : Nat) (values : List Val) : M Unit := do
   match row.kind with
-  | .directProxyAccessor | .attributeMatcherAccessor =>
+  | .typecastAccessor =>
+    if values.any (fun v => match v with | .newObject _ => true | _ => false) then hit "typecast.set-newobject"; raise .notImplemented
+    let cls ← match row.elemClass with | some c => pure c | none => raise (.protocol "typecast")
+    for v in values do
+      match v with
+      | .elem n => if !(← isInstanceOf t n cls) then hit "typecast.set-wrong-class"; raise .typeError
+      | .str _ => raise .typeError
+      | .foreign => raise (.unmodelled "TypecastAccessor.__set__ with an object of another model")
+      | .newObject _ => pure ()
+    let inner ← typecastOnOwner t row owner
+    hit "typecast.set"
+    accSetBase t inner owner values
+  | _ => accSetBase t row owner values
+
+/-- `acc.__delete__(obj)` for the kinds that do not delegate -/
+def accDelBase (t : Tables) (row : ARow) (owner : Nat) : M Unit := do
+  match row.kind with
+  | .directProxyAccessor | .attributeMatcherAccessor | .attributeAccessor =>
     if !row.rootelem.isEmpty then raise .typeError
     if row.followAbstract then raise .typeError
     if row.aslist then
@@ -1277,14 +1494,29 @@ def accDel (t : Tables) (row : ARow) (owner : Nat) : M Unit := do
     match row.follow with
     | some a => if (← attrOf owner a).isSome then popAttr owner a else raise .keyError
     | none => raise (.protocol "attr")
+  | .roleTagAccessor | .elementRelationAccessor => hit "del.not-deletable"; raise .typeError    -- `Accessor.__delete__`
+  | .requirementsRelationAccessor =>
+    for r in (← findRelations owner) do
+      match (← parentOf r) with
+      | some _ => hit "reqrel.del-removes"; removeElem r
+      | none => raise .assertion
   | _ => raise (.unmodelled "__delete__ of this accessor kind")
+
+/-- `acc.__delete__(obj)`; `TypecastAccessor.__delete__` is `delattr(obj, self.attr)` -/
+def accDel (t : Tables) (row : ARow) (owner : Nat) : M Unit := do
+  match row.kind with
+  | .typecastAccessor =>
+    let inner ← typecastOnOwner t row owner
+    hit "typecast.del"
+    accDelBase t inner owner
+  | _ => accDelBase t row owner
 
 /-! ### `ElementListCouplingMixin` -/
 
 /-- `ElementListCouplingMixin.insert(index, value)` (the accessor part; the list object mirrors it) -/
-def listInsert (row : ARow) (owner : Nat) (elems : List Nat) (index : Int) (value : Val) : M Unit := do
+def listInsert (t : Tables) (row : ARow) (owner : Nat) (elems : List Nat) (index : Int) (value : Val) : M Unit := do
   if row.fixed != 0 && elems.length ≥ row.fixed then hit "list.fixed-insert"; raise .typeError
-  accInsert row owner elems index value
+  accInsert t row owner elems index value
 
 /-- `ElementListCouplingMixin.__delitem__(index)` -/
 def listDelItem (t : Tables) (row : ARow) (owner : Nat) (elems : List Nat) (index : Int) : M Unit := do
@@ -1317,22 +1549,43 @@ def listSetSlice (t : Tables) (row : ARow) (owner : Nat) (elems : List Nat) (lo 
   if row.fixed != 0 && newObjs.length != row.fixed then raise .typeError
   accSet t row owner newObjs
 
+/-- `acc.create(elmlist, typehint, **kw)` for the kinds that do not delegate -/
+def accCreateObjBase (t : Tables) (row : ARow) (owner : Nat) (hint : Option String)
+    (kw : List (String × Slot × KwVal)) : M Nat :=
+  match row.kind with
+  | .directProxyAccessor | .attributeMatcherAccessor =>
+    if !row.rootelem.isEmpty then raise .typeError else accCreate 8 t row owner none hint kw
+  | .roleTagAccessor => accCreate 8 t row owner row.tag hint kw
+  | .attributeAccessor => raise (.unmodelled "AttributeAccessor.create (own _match_xtype)")
+  | .requirementsRelationAccessor => raise (.unmodelled "RequirementsRelationAccessor.create")
+  | _ => do hit "create.not-creatable"; raise .typeError   -- WritableAccessor.create: "Cannot create objects"
+
+/-- `acc.create(elmlist, typehint, **kw)`; `TypecastAccessor.create` refuses a type hint and asks
+`getattr(self.class_, self.attr)` for an object of exactly the class it casts to -/
+def accCreateObj (t : Tables) (row : ARow) (owner : Nat) (hint : Option String)
+    (kw : List (String × Slot × KwVal)) : M Nat := do
+  match row.kind with
+  | .typecastAccessor =>
+    if (hint.getD "") != "" then hit "typecast.create-hint"; raise .typeError
+    let inner ← typecastTarget t row
+    let cls ← match row.elemClass.bind t.cls with | some c => pure c | none => raise (.protocol "typecast")
+    let (_, xt) ← buildXtype cls
+    hit "typecast.create"
+    let n ← accCreateObjBase t inner owner (some xt) kw
+    if !(← isInstanceOf t n cls.name) then raise .assertion
+    pure n
+  | _ => accCreateObjBase t row owner hint kw
+
 /-- `ElementListCouplingMixin.create(typehint, **kw)` -/
 def listCreate (t : Tables) (row : ARow) (owner : Nat) (elems : List Nat) (hint : Option String)
     (kw : List (String × Slot × KwVal)) : M Nat := do
   if row.fixed != 0 && elems.length ≥ row.fixed then hit "list.fixed-create"; raise .typeError
   -- newobj = acc.create(self, typehint, **kw)
-  let newobj ← (match row.kind with
-    | .directProxyAccessor | .attributeMatcherAccessor =>
-      if !row.rootelem.isEmpty then raise .typeError else accCreate 8 t row owner none hint kw
-    | .roleTagAccessor => accCreate 8 t row owner row.tag hint kw
-    | .typecastAccessor => raise (.unmodelled "TypecastAccessor.create")
-    | .attributeAccessor => raise (.unmodelled "AttributeAccessor.create (own _match_xtype)")
-    | _ => do hit "create.not-creatable"; raise .typeError)   -- WritableAccessor.create: "Cannot create objects"
+  let newobj ← accCreateObj t row owner hint kw
   -- try: acc.insert(self, len(self), newobj)
   -- except: loader.idcache_remove(newobj._element); parent._element.remove(newobj._element); raise   (fix 501db10:
   -- the clean-up un-indexes what it detaches; before, an element that was still indexed stayed in the indexes)
-  tryExcept (accInsert row owner elems (elems.length : Int) (.elem newobj))
+  tryExcept (accInsert t row owner elems (elems.length : Int) (.elem newobj))
     (do hit "create.insert-failed"; removeElem newobj)
   pure newobj
 
@@ -1349,6 +1602,8 @@ inductive Call
   | del (row : ARow) (owner : Nat)                          -- `del owner.attr`
   | roleSet (row : ARow) (owner : Nat) (spec : NewSpec)     -- `owner.attr = NewObject(...)`
   | podSet (owner : Nat) (attr : String) (writable : Bool) (v : String)
+  /-- `owner.<pod attribute> = v` for any POD kind; `repair` = what `helpers.repair_html` made of the value (HTML only) -/
+  | podSetK (owner : Nat) (d : Capella.Pods.Desc) (repair : List (List Char × Option (List Char))) (v : PodLit)
 
 def valKnown (v : Val) : M Unit := match v with | .elem n => ensureKnown [n] | _ => pure ()
 
@@ -1361,15 +1616,16 @@ def withElems {α} (t : Tables) (row : ARow) (owner : Nat) (elems : Option (List
 
 def apiStep (t : Tables) : Call → M (Option Nat)
   | .create row owner elems hint kw => withElems t row owner elems fun e => do
+      let row ← coupledRow t row owner
       let n ← listCreate t row owner e hint kw; pure (some n)
   | .insert row owner elems i v => withElems t row owner elems fun e => do
-      valKnown v; listInsert row owner e i v; pure none
+      valKnown v; let row ← coupledRow t row owner; listInsert t row owner e i v; pure none
   | .delItem row owner elems i => withElems t row owner elems fun e => do
-      listDelItem t row owner e i; pure none
+      let row ← coupledRow t row owner; listDelItem t row owner e i; pure none
   | .setItem row owner elems i v => withElems t row owner elems fun e => do
-      valKnown v; listSetItem t row owner e i v; pure none
+      valKnown v; let row ← coupledRow t row owner; listSetItem t row owner e i v; pure none
   | .setSlice row owner elems lo hi vs => withElems t row owner elems fun e => do
-      forM_ vs valKnown; listSetSlice t row owner e lo hi vs; pure none
+      forM_ vs valKnown; let row ← coupledRow t row owner; listSetSlice t row owner e lo hi vs; pure none
   | .set row owner vs => do ensureKnown [owner]; forM_ vs valKnown; accSet t row owner vs; pure none
   | .del row owner => do ensureKnown [owner]; accDel t row owner; pure none
   | .roleSet row owner spec => do
@@ -1378,6 +1634,7 @@ def apiStep (t : Tables) : Call → M (Option Nat)
       else raise (.unmodelled "single-valued assignment on this accessor kind")
       pure none
   | .podSet owner attr w v => do ensureKnown [owner]; setStringPod owner attr w v; pure none
+  | .podSetK owner d rp v => do ensureKnown [owner]; setPod (podParams rp) owner d (v.toPy _); pure none
 
 /-- what the caller's session looks like before a call: the per-call inputs (uuid draws, identities of the objects
 the implementation is going to create) are set, the per-call outputs are empty -/
